@@ -314,3 +314,29 @@ PROPS["C02"] = dict(
                 "subscriber syncs from a real publisher whose responses are corrupted in flight; the destination store is audited entry by entry."),
     level_note="Trusted: go-multihash for the audit re-hash (same library the code under test uses; an independent implementation is not available offline).",
 )
+
+PROPS["C04"] = dict(
+    race=False,
+    shards={"quick": 16, "thorough": 16},
+    gomaxprocs=4,
+    level="fault_enumeration",
+    design_ref="DESIGN.md §1 C04",
+    technique="runtime monitor: scripted fault injection at a publisher front (status, reset, truncation, corruption, stall, cancellation, hook failure), before/after state comparison and retry against the fault-free expectation",
+    rule=("each case: a baseline (latest-synced = ad 1, by a real sync or by SetLatestSync + pre-stored blocks), then a sync of head ad 4 during "
+          "which one or two faults are injected at request index 0..6 (discovery probes, head, blocks) from {400, 403, 404, 500, 503, "
+          "connection reset, truncated body, corrupt body, stalled response (client timeout 400 ms), context cancellation, hook FailSync}; faults "
+          "persist for every re-send of that request; explicit or announce-triggered, segmented or not, plain HTTP / legacy no-path / "
+          "libp2p-HTTP discovery mounts, one address or two with a dead first/second address. If the faulty sync fails: latest unchanged, no "
+          "success notification, exactly one error notification for announced syncs, verified blocks intact; then faults stop and the same head "
+          "is retried (re-announced for announced syncs) with the SAME subscriber: must succeed, set latest to the head, not re-request blocks "
+          "verified before, emit one success notification; final store equals the publisher's; closing the subscriber must reveal no further "
+          "notification. distinct_nontrivial = distinct (fault script, mode, mount, address list, baseline kind) tuples."),
+    floors={"quick": {"faulty_syncs_failed": 500, "fault_pairs": 150, "mount_libp2phttp-discovery": 150, "mount_legacy-nopath": 150, "addrs_live-dead": 80, "addrs_dead-live": 80,
+                      "fault_hit_reset": 30, "fault_hit_stall": 10, "fault_hit_ctx-cancel": 20, "fault_hit_hook-fail": 20}},
+    watchdog_s={"quick": 1200, "thorough": 7200},
+    level_text=("Fault enumeration (seeded sample over kind x request index x mode x mount x address list, singles and pairs): real syncs against a "
+                "real publisher behind a fault-injecting front; the durable state before/after and the behaviour of the retry are compared with "
+                "the fault-free expectation."),
+    level_note="Trusted: the front applies exactly the scripted fault; a 400 ms HTTP timeout is configured so that stalled responses end.",
+    assumptions=["a fault that the client survives (e.g. on a discovery probe, after which it falls back to plain HTTP) makes the sync succeed; then the success clauses are checked instead"],
+)
